@@ -1263,10 +1263,10 @@ class Runner:
             spans = [(m.start(), m.end()) for m in _re.finditer(pat if regex else _re.escape(pat), t, 0 if mc else _re.IGNORECASE)]
         except _re.error:
             return
+        ids = P.InIds()
+        sp = [count, len(spans)] + [v for se in spans for v in se]
         if count >= 0:
             spans = spans[:count]
-        ids = P.InIds()
-        sp = [len(spans)] + [v for se in spans for v in se]
         if un:
             arg_ast = None if (not fmt or None in fmt) else ('tuple', fmt)
             inp = P.line('unfmatch', P.e_astr(x, ids), P.e_optsarg(arg_ast), sp)
